@@ -80,7 +80,7 @@ fn explore_one(
                     let r = catch(|| t.vc.insert(now, a));
                     stats.transitions += 1;
                     t.hist.push((dt, a, matches!(r, Ok(true))));
-                    let rep = || json!({"config": name, "start_now": start_now, "limit": limit, "ops_dt_amount_approved": t.hist});
+                    let rep = || json!({"engine": "velocity", "config": name, "start_now": start_now, "limit": limit, "ops_dt_amount_approved": t.hist});
                     match r {
                         Err(p) => {
                             run.violation(
@@ -141,6 +141,113 @@ fn explore_one(
     stats.configs += 1;
 }
 
+/// Policy changes and restarts: a control is created under one spec, possibly used, then told
+/// about another (or the same) spec -- as node start-up and the policy reload hook do -- and
+/// possibly carried through get_state / load_from_state, then used again.  Oracle: the
+/// sliding-window rule of the spec now in force over the approvals made since the spec last
+/// really changed (a change of spec may forget the history; telling the control the spec it
+/// already has, or restoring it, may not).
+fn respec_check(run: &mut Run, stats: &mut VelStats) {
+    use VelocityControlIntervalType::*;
+    let specs = [
+        VelocityControlSpec { limit_msat: 100, interval_type: Hourly },
+        VelocityControlSpec { limit_msat: 100, interval_type: Daily },
+        VelocityControlSpec { limit_msat: 50, interval_type: Hourly },
+        VelocityControlSpec { limit_msat: 50, interval_type: Daily },
+        VelocityControlSpec { limit_msat: 100, interval_type: Unlimited },
+    ];
+    let geometry = |s: &VelocityControlSpec| -> Option<(u64, u64)> {
+        match s.interval_type {
+            Hourly => Some((300, 12)),
+            Daily => Some((3600, 24)),
+            Unlimited => None,
+        }
+    };
+    let same = |a: &VelocityControlSpec, b: &VelocityControlSpec| a.limit_msat == b.limit_msat && std::mem::discriminant(&a.interval_type) == std::mem::discriminant(&b.interval_type);
+    let t0 = 1_700_000_123u64;
+    let mut seqs = 0u64;
+    for s1 in &specs {
+        for s2 in &specs {
+            let (b2, n2) = match geometry(s2) {
+                Some(g) => g,
+                None => continue,
+            };
+            let w2 = (n2 - 1) * b2;
+            let l2 = s2.limit_msat;
+            let dts = [0u64, b2, 2 * b2 + 1, 3 * b2, w2, n2 * b2 + 1];
+            let amts = [l2, l2 / 2, 1];
+            for used_before in [false, true] {
+                for path in 0..3u8 {
+                    // 0: update_spec once; 1: update_spec twice; 2: update_spec, state round
+                    // trip (restart), update_spec again
+                    for i0 in 0..dts.len() * amts.len() {
+                        for i1 in 0..dts.len() * amts.len() {
+                            for i2 in 0..dts.len() * amts.len() {
+                                seqs += 1;
+                                stats.transitions += 3;
+                                let mut vc = VelocityControl::new(*s1);
+                                let mut log: Vec<(u64, u64)> = vec![];
+                                let mut now = t0;
+                                let mut hist = vec![];
+                                if used_before {
+                                    let a = s1.limit_msat.min(l2);
+                                    if vc.insert(now, a) && a > 0 {
+                                        log.push((now, a));
+                                    }
+                                    hist.push(json!({"insert_under_first_spec": a}));
+                                }
+                                if !same(s1, s2) {
+                                    log.clear();
+                                }
+                                vc.update_spec(s2);
+                                if path == 1 {
+                                    vc.update_spec(s2);
+                                }
+                                if path == 2 {
+                                    vc = VelocityControl::load_from_state(*s2, vc.get_state());
+                                    vc.update_spec(s2);
+                                }
+                                let mut bad = None;
+                                for (step, ix) in [i0, i1, i2].into_iter().enumerate() {
+                                    let (dt, a) = (dts[ix / amts.len()], amts[ix % amts.len()]);
+                                    now += dt;
+                                    let ok = match catch(|| vc.insert(now, a)) {
+                                        Ok(x) => x,
+                                        Err(p) => {
+                                            bad = Some((format!("C12:component:respec:panic"), format!("insert panicked after a spec change: {}", p)));
+                                            break;
+                                        }
+                                    };
+                                    hist.push(json!({"dt": dt, "amount": a, "approved": ok}));
+                                    if ok {
+                                        let sum: u128 = log.iter().filter(|(t, _)| now - *t <= w2).map(|(_, x)| *x as u128).sum::<u128>() + a as u128;
+                                        if sum > l2 as u128 {
+                                            bad = Some((
+                                                format!("C12:component:respec:window-sum-exceeds-limit:{:?}->{:?}:{}", s1.interval_type, s2.interval_type, ["update", "update-twice", "update-restore-update"][path as usize]),
+                                                format!("control created as {:?}, then told {:?}: approvals within {} s sum to {} > limit {} (step {})", s1, s2, w2, sum, l2, step),
+                                            ));
+                                            break;
+                                        }
+                                        stats.approvals += 1;
+                                        log.push((now, a));
+                                    } else {
+                                        stats.refusals += 1;
+                                    }
+                                }
+                                if let Some((k, w)) = bad {
+                                    let steps: Vec<(u64, u64)> = [i0, i1, i2].iter().map(|ix| (dts[ix / amts.len()], amts[ix % amts.len()])).collect();
+                                    run.violation(&k, &w, json!({"engine": "velocity", "part": "respec", "first": [s1.limit_msat, format!("{:?}", s1.interval_type)], "second": [s2.limit_msat, format!("{:?}", s2.interval_type)], "used_before": used_before, "path": path, "steps": steps, "history": hist}));
+                                }
+                            }
+                        }
+                    }
+                }
+            }
+        }
+    }
+    stats.states += seqs;
+}
+
 pub fn run_component(run: &mut Run) -> VelStats {
     let tier = run.tier;
     let mut stats = VelStats {
@@ -187,5 +294,74 @@ pub fn run_component(run: &mut Run) -> VelStats {
             &mut stats,
         );
     }
+    respec_check(run, &mut stats);
     stats
+}
+
+fn interval_type(s: &str) -> VelocityControlIntervalType {
+    match s {
+        "Hourly" | "hourly" => VelocityControlIntervalType::Hourly,
+        "Daily" | "daily" => VelocityControlIntervalType::Daily,
+        _ => VelocityControlIntervalType::Unlimited,
+    }
+}
+
+/// Re-execute a recorded component history on the real control and print what it approves.
+pub fn replay(v: &Value) {
+    let r = &v["replay"];
+    if r["part"].as_str() == Some("respec") {
+        let spec = |x: &Value| VelocityControlSpec { limit_msat: x[0].as_u64().unwrap_or(0), interval_type: interval_type(x[1].as_str().unwrap_or("")) };
+        let (s1, s2) = (spec(&r["first"]), spec(&r["second"]));
+        let mut vc = VelocityControl::new(s1);
+        let mut now = 1_700_000_123u64;
+        if r["used_before"].as_bool().unwrap_or(false) {
+            let a = s1.limit_msat.min(s2.limit_msat);
+            println!("insert({}, {}) under {:?} -> {}", now, a, s1, vc.insert(now, a));
+        }
+        vc.update_spec(&s2);
+        println!("update_spec({:?})", s2);
+        match r["path"].as_u64().unwrap_or(0) {
+            1 => {
+                vc.update_spec(&s2);
+                println!("update_spec again");
+            }
+            2 => {
+                vc = VelocityControl::load_from_state(s2, vc.get_state());
+                vc.update_spec(&s2);
+                println!("get_state / load_from_state / update_spec");
+            }
+            _ => {}
+        }
+        let mut approved: Vec<(u64, u64)> = vec![];
+        for st in r["steps"].as_array().cloned().unwrap_or_default() {
+            let (dt, a) = (st[0].as_u64().unwrap_or(0), st[1].as_u64().unwrap_or(0));
+            now += dt;
+            let ok = vc.insert(now, a);
+            if ok {
+                approved.push((now, a));
+            }
+            println!("insert(+{} s, {}) -> {} (bucket interval {} s, {} buckets, limit {}); approved so far {:?}", dt, a, ok, vc.bucket_interval, vc.buckets.len(), vc.limit, approved);
+        }
+        return;
+    }
+    let name = r["config"].as_str().unwrap_or("");
+    let limit = r["limit"].as_u64().unwrap_or(0);
+    let mut vc = if let Some(rest) = name.strip_prefix("intervals(B=10,N=") {
+        let n: usize = rest.split(',').next().unwrap_or("1").parse().unwrap_or(1);
+        VelocityControl::new_with_intervals(limit, 10, n)
+    } else {
+        let ty = name.strip_prefix("spec(").and_then(|x| x.split(',').next()).unwrap_or("");
+        VelocityControl::new(VelocityControlSpec { limit_msat: limit, interval_type: interval_type(ty) })
+    };
+    let mut now = r["start_now"].as_u64().unwrap_or(0);
+    let mut approved: Vec<(u64, u64)> = vec![];
+    for st in r["ops_dt_amount_approved"].as_array().cloned().unwrap_or_default() {
+        let (dt, a) = (st[0].as_u64().unwrap_or(0), st[1].as_u64().unwrap_or(0));
+        now += dt;
+        let ok = catch(|| vc.insert(now, a));
+        if let Ok(true) = ok {
+            approved.push((now, a));
+        }
+        println!("insert(+{} s, {}) -> {:?}; approved so far {:?}", dt, a, ok, approved);
+    }
 }
